@@ -149,9 +149,9 @@ def replay_cases(obj):
 
     def walk(o):
         if isinstance(o, dict):
-            if o.get("kind") in ("send", "announce", "clear", "ingest", "pubfail") and ("reg" in o or "via" in o or "secret" in o):
+            if o.get("kind") in ("send", "announce", "clear", "ingest", "pubfail", "shutdown") and ("reg" in o or "via" in o or "secret" in o):
                 c = dict(o)
-                if c["kind"] == "ingest":
+                if c["kind"] in ("ingest", "shutdown"):
                     c.setdefault("subnets", SUBNETS)
                 out.append(c)
                 return
@@ -175,8 +175,13 @@ def gen_cases(ctx):
     for mode in ("err", "close"):
         cases.append({"kind": "pubfail", "via": mode, "reg": {"phantom": hx(v6[2]), "addr": hx(v4[0]), "port": 443, "proto": 1},
                       "secret": rng.getrandbits(256).to_bytes(32, "big").hex()})
-    cases.append({"kind": "clear", "via": "clearDetector"})
-    cases.append({"kind": "clear", "via": "Cleanup"})
+    cases.append({"kind": "clear", "via": "fresh"})
+    cases.append({"kind": "clear", "via": "used", "reg": {"phantom": hx(v6[2]), "addr": hx(v4[0]), "port": 443, "proto": 1},
+                  "secret": rng.getrandbits(256).to_bytes(32, "big").hex()})
+    # the shutdown sequence of cmd/application: pipeline started, a registration announced, cancel(), wg.Wait(), Cleanup()
+    for via in ("idle", "busy") * (1 if quick else 3):
+        cases.append({"kind": "shutdown", "via": via, "addr": hx(rng.choice(v4 + v6 + [None])), "gen": rng.choice([1, 2, 5]), "libver": rng.choice([3, 4]),
+                      "secret": rng.getrandbits(256).to_bytes(32, "big").hex(), "subnets": SUBNETS})
 
     def reg(ph, ad, port=None, proto=None):
         return {"phantom": hx(ph), "addr": hx(ad),
@@ -470,9 +475,8 @@ def search_failing_input(ctx, binary, bases):
     if not cand:
         return
     before = len(ctx.failures)
-    rc, out, res = ctx.go_inpkg(".", "pkg/station/lib", {"zz_verif_c10_driver_test.go": "c10/detector_driver_test.go"},
-                                "^TestVerifC10Detector$", cand, timeout=900)
-    if res is None or len(res) != len(cand):
+    res = run_go(ctx, cand)
+    if res is None:
         return
     flat = [(ci, mi, m) for ci, r in enumerate(res) for mi, m in enumerate(r.get("msgs") or [])]
     if any(not m["decoded"] for _, _, m in flat):
@@ -505,7 +509,10 @@ def gen_histories(ctx, pool, pairs):
     for (n, u) in pairs[:(10 if quick else 120)]:
         t0 = NOW + rng.randrange(10 ** 9)
         t1 = t0 + rng.randrange(1, UNUSED_NS)           # first use, while still accepted
-        other = rng.choice([x for x in pool if x[0]["op"] != 3])   # anything but a Clear (which legitimately empties the table)
+        # an unrelated message in between: anything but a Clear (which legitimately empties the table) or a message for the
+        # same session key (which legitimately extends it)
+        ntag = n[1]["conv"].get("tag")
+        other = rng.choice([x for x in pool if x[0]["op"] != 3 and x[1]["conv"].get("tag") != ntag])
         h = [(t0, "M", n, None), (t0, "Q", n, True),
              (t0 + UNUSED_NS // 2, "S", None, None), (t0 + UNUSED_NS // 2, "M", other, None),
              (t0 + UNUSED_NS - 1, "S", None, None), (t0 + UNUSED_NS - 1, "Q", n, True),
@@ -579,6 +586,14 @@ def run_histories(ctx, binary, hs, classify):
             obs.append("(%s, %s)" % (gN(o["aux"] + 1), glist(tab)))
         terms.append("(CHistory %s %s)" % (glist(evs), glist(obs)))
         ctx.count(("history", kind, repr(h)[:4000]), kind="history/" + kind)
+        if kind == "shutdown":
+            for (k, want, aux, t) in answers:
+                if k == "Q" and want is not None and bool(aux == 1) != want:
+                    ctx.fail("shutdown:session-%s" % ("not-tracked-before-shutdown" if want else "survives-shutdown"),
+                             "real SessionTracker fed with everything the station published in a shutdown scenario: the announced session is %s"
+                             % ("not tracked after its New" if want else "still tracked after the station's Cleanup()"),
+                             {"published": [mm[0] for (_, _, mm, _) in h if mm is not None]})
+                    break
         if kind == "lifetime":
             # direct oracle: tracked at every instant before the station's lifetime ends, gone at the first sweep after it
             for (k, want, aux, t) in answers:
@@ -638,6 +653,32 @@ def run_pubsub(ctx, binary, scripts, classify, channel):
     return terms
 
 
+DRIVER_FILES = {"zz_verif_c10_driver_test.go": "c10/detector_driver_test.go",
+                "zz_verif_c10_shim_send_test.go": "c10/shim_send_test.go",
+                "zz_verif_c10_shim_none_test.go": "c10/shim_none_test.go"}
+
+
+def run_go(ctx, cases):
+    """run the in-package driver; a build failure is retried without the direct-call shim, and a driver that still does
+    not build is reported as such (it says nothing about conjure's behaviour)"""
+    tags = "verif"
+    for attempt in (0, 1):
+        rc, out, res = ctx.go_inpkg(".", "pkg/station/lib", DRIVER_FILES, "^TestVerifC10Detector$", cases, timeout=900, tags=tags)
+        if res is not None and len(res) == len(cases):
+            return res
+        if "[build failed]" in out and attempt == 0:
+            ctx.cov["driver_shim"] = "sendToDetector's signature changed: direct-call cases skipped (%s)" % " ".join(out.split())[:300]
+            tags = "verif,c10_noshim"
+            continue
+        break
+    if "[build failed]" in out:
+        ctx.broken("driver-compile", "the in-package driver harness/inpkg/c10 no longer compiles against this tree (an unexported name or "
+                   "signature it relies on changed); this says nothing about conjure's behaviour: " + " ".join(out.split())[:900])
+    else:
+        ctx.broken("driver", "Go driver did not produce results (rc=%d): %s" % (rc, out[-1200:]))
+    return None
+
+
 def run(ctx):
     ctx.assumptions += [
         "text classes: an IP-literal parser reads net.IP.String's output for 4-/16-byte values back as the same address "
@@ -682,7 +723,7 @@ def check_call_site(ctx):
     strip = lambda t: re.sub(r"//[^\n]*", "", t)
     txt = "\n".join(strip(open(f).read()) for f in srcs)
     ctx.count(("call-site",), kind="call-site")
-    if not re.search(r"\.Cleanup\(\)", txt):
+    if not re.search(r"\.Cleanup\(", txt):
         ctx.fail("clear:not-requested-at-shutdown", "cmd/application no longer calls RegistrationManager.Cleanup(): a station that shuts down "
                  "leaves its sessions in the detector", {"files": [os.path.basename(f) for f in srcs]})
         return
@@ -696,8 +737,8 @@ def check_call_site(ctx):
         ctx.cov["shutdown_path"] = "main() / signal.Notify not found: shape check skipped"
         return
     head, tail = m[i:j], m[j:]
-    deferred = re.search(r"defer\s+[\w.]+\.Cleanup\(\)", head) is not None
-    explicit = re.search(r"(?<!defer )\b[\w.]+\.Cleanup\(\)", tail) is not None
+    deferred = re.search(r"defer\s+[\w.]+\.Cleanup\(", head) is not None
+    explicit = re.search(r"(?<!defer )\b[\w.]+\.Cleanup\(", tail) is not None
     skip = re.search(r"\b(os\.Exit|[\w.]*Fatal\w*|panic|[\w.]*Panic\w*)\(", tail)
     ctx.cov["shutdown_path"] = {"deferred_before_signal_wait": deferred, "explicit_after_loop": explicit,
                                 "defer_skipping_call_after_signal_wait": skip.group(0) if skip else None}
@@ -711,10 +752,8 @@ def check_call_site(ctx):
 def _run(ctx, binary):
     check_call_site(ctx)
     cases = gen_cases(ctx)
-    rc, out, res = ctx.go_inpkg(".", "pkg/station/lib", {"zz_verif_c10_driver_test.go": "c10/detector_driver_test.go"},
-                                "^TestVerifC10Detector$", cases, timeout=900)
-    if res is None or len(res) != len(cases):
-        ctx.broken("driver", "Go driver did not produce results (rc=%d): %s" % (rc, out[-1200:]))
+    res = run_go(ctx, cases)
+    if res is None:
         return
     # every published message, plus detector-only messages, through the real Rust code
     flat = []
@@ -741,6 +780,7 @@ def _run(ctx, binary):
         origin.append((ci, what))
 
     meta = None
+    shutdown_hist = []
     for ci, (c, r) in enumerate(zip(cases, res)):
         kind = c["kind"]
         msgs = r.get("msgs") or []
@@ -772,7 +812,39 @@ def _run(ctx, binary):
                          "connections although the detector was never told" % ({"err": "answers with an error to", "close": "drops the connection on"}[c["via"]],
                                                                                 pf.get("attempts", 0)), {"case": c, "observed": pf})
             continue
+        if kind == "shutdown":
+            info = r.get("info") or {}
+            cc = {k: v for k, v in c.items() if k != "subnets"}
+            ctx.count(("shutdown", json.dumps(cc, sort_keys=True)), kind="shutdown/" + c["via"])
+            nb = info.get("before", 0)
+            if r.get("err") or nb == 0:
+                ctx.broken("correspondence", "shutdown scenario: the registration was not announced before the cancel (%s)" % r.get("err"), cc)
+                continue
+            after = msgs[nb:]
+            clears = [i for i, m in enumerate(after) if m["op"] == 3]
+            if not info.get("pipeline_returned"):
+                ctx.fail("shutdown:cleanup-not-reached", "HandleRegUpdates (%s input) did not return within 15 s of cancel(): main() would never "
+                         "reach its deferred Cleanup()" % c["via"], cc)
+                continue
+            if len(clears) != 1:
+                ctx.fail("shutdown:clear-not-published-after-cancel" if not clears else "shutdown:clear-published-%d-times" % len(clears),
+                         "shutdown sequence (%s input): pipeline started with a context, registration announced, cancel(), wg.Wait(), "
+                         "Cleanup(): %d Clear message(s) reached the Redis stand-in after the cancel (expected exactly one); the detector keeps "
+                         "diverting for a station that is gone" % (c["via"], len(clears)),
+                         {"case": cc, "published_before_cancel": msgs[:nb], "published_after_cancel": after})
+                continue
+            if any(m["op"] in (1, 2) for m in after[clears[0] + 1:]):
+                ctx.fail("shutdown:announcement-after-clear", "an announcement was published after the Clear of the shutdown sequence", {"case": cc, "after": after})
+            d = det_of[(ci, nb + clears[0])]
+            if not all(len(mp) == 0 for mp in d["maps"]):
+                ctx.fail("shutdown:clear-ignored", "the Clear published by the shutdown sequence leaves the detector's table as it was", {"case": cc, "detector": d})
+            add("(CShutdown %s)" % glist([g_msg(after[i], det_of[(ci, nb + i)]) for i in clears]), ci, "shutdown")
+            shutdown_hist.append([((m, det_of[(ci, i)])) for i, m in enumerate(msgs)])
+            continue
         if kind == "send":
+            if r.get("err", "").startswith("skipped"):
+                ctx.count(("send-skipped",), nontrivial=False, kind="send/skipped")
+                continue
             if len(msgs) != 1:
                 ctx.broken("correspondence", "sendToDetector published %d messages" % len(msgs), c)
                 continue
@@ -798,7 +870,7 @@ def _run(ctx, binary):
             continue
         if kind == "clear":
             if len(msgs) == 0:
-                ctx.fail("clear:not-sent", "%s published nothing on the detector channel" % c["via"], c)
+                ctx.fail("clear:not-sent", "Cleanup() (%s manager) published nothing on the detector channel" % c["via"], c)
                 continue
             if len(msgs) != 1:
                 ctx.broken("correspondence", "%s published %d messages" % (c["via"], len(msgs)), c)
@@ -808,7 +880,7 @@ def _run(ctx, binary):
             acted = all(len(mp) == 0 for mp in d["maps"])
             ctx.count(("clear", c["via"]), kind="clear/" + ("acted-on" if acted else "ignored"))
             if not acted:
-                ctx.fail("clear:ignored", "the message %s publishes at shutdown (operation=Clear, nothing else) is dropped by the detector "
+                ctx.fail("clear:ignored", "the message Cleanup() (%s manager) publishes at shutdown (operation=Clear, nothing else) is dropped by the detector "
                          "(%s) and its session table is left as it was: %s" % (c["via"], d["conv"].get("err"), d["maps"][0]),
                          {"case": c, "message": msgs[0], "detector": d})
             continue
@@ -868,7 +940,15 @@ def _run(ctx, binary):
     ctx.rng.shuffle(pairs)
     if good and pairs:
         hpool = good * 3 + pool[:200]
-        for t_ in run_histories(ctx, binary, gen_histories(ctx, hpool, pairs), classify):
+        hs_all = gen_histories(ctx, hpool, pairs)
+        for ms in shutdown_hist:      # everything the station published in a shutdown scenario, in order: nothing survives
+            first = next((x for x in ms if x[0]["op"] == 1 and x[1]["conv"]["ok"]), None)
+            h = [(NOW + i, "M", x, None) for i, x in enumerate(ms)]
+            if first:
+                h.insert(1 + ms.index(first), (NOW + ms.index(first), "Q", first, True))
+                h.append((NOW + len(ms), "Q", first, False))
+            hs_all.append(("shutdown", h))
+        for t_ in run_histories(ctx, binary, hs_all, classify):
             terms.append(t_)
             origin.append((None, "history"))
         for t_ in run_pubsub(ctx, binary, gen_pubsub(ctx, hpool), classify, (meta or {}).get("channel", "dark_decoy_map")):
@@ -880,10 +960,11 @@ def _run(ctx, binary):
         c = dict(cases[ing[0]])
         c.pop("subnets", None)
         ctx.sample({"case": c, "result": res[ing[0]], "detector": det_of.get((ing[0], 0))})
-    ctx.require_kinds(["meta", "send/accepted", "send/InvalidPhantom", "send/InvalidClient", "send/MixedV4V6Error",
+    ctx.require_kinds([k_ for k_ in ["meta", "send/accepted", "send/InvalidPhantom", "send/InvalidClient", "send/MixedV4V6Error",
                        "send/UnrecognizedProto", "announce/accepted", "clear/acted-on", "ingest/0-regs", "ingest/1-regs",
                        "ingest/2-regs", "ingest-announce/ok", "newreg/ok", "newreg/rejected", "detect/ok/added", "detect/InvalidPhantom/nothing",
-                       "detect/InvalidClient/nothing", "detect/MixedV4V6Error/nothing", "detect/UnrecognizedProto/cleared", "history/lifetime", "history/random", "pubsub", "pubfail/err", "pubfail/close"])
+                       "detect/InvalidClient/nothing", "detect/MixedV4V6Error/nothing", "detect/UnrecognizedProto/cleared", "history/lifetime", "history/random", "pubsub", "pubfail/err", "pubfail/close", "shutdown/idle", "shutdown/busy"]
+                       if not (k_.startswith("send/") and ctx.cov.get("driver_shim"))])
     if ctx.failures or ctx.brokens:
         # outcome classes are only meaningful as a generator self-test when nothing else is wrong
         ctx.brokens[:] = [b for b in ctx.brokens if b["kind"] != "generator-selftest"]
